@@ -80,6 +80,20 @@ run-time primitives are in `Base/PyList.lean`, which the `imports` of the genera
   two functions (profile `part`: `"enter"` = the statements up to the `yield`, `"exit"` = the `finally` block, run
   on a record of the same locals: the state at the `yield` with whatever the `with` body did to the object).
 
+Constructs added for `Function.Node.evaluate` / `Function.membership` / the FLD reader (profiles `funeval.py`):
+
+* `type_params` (e.g. `["V"]`): the function is generic in these types (Python's `Scalar`: whatever the methods of
+  the elements compute with).  The record becomes `F.S V` (`structure F.S (V : Type) [Inhabited V]`) and every
+  definition takes `{V : Type} [Inhabited V]` first; nothing else changes;
+* a self-recursive call in *expression* position (`f(node.evaluate(m))`, a method that calls itself on another
+  object): the value of `F.rec fuel args {}` (no `inout` parameters there); an argument of type `Option T` for a
+  parameter of type `T` is dereferenced (`None.evaluate` is an `AttributeError`).  `rec_fixed` names the Lean
+  parameters that are not Python parameters (tables, meanings of externals): they have no hole in `self_call` and
+  are passed on unchanged;
+* `if x := e:` is `x = e` followed by `if x:`;
+* `a or b` for two pure operands of the same type `Option T` (objects without `__bool__` / `__len__`): `a` unless it
+  is `None`, else `b` (`Option.or`).
+
 Anything outside the subset raises `Untranslatable` - the tie is then reported as broken (never silently skipped).
 """
 from __future__ import annotations
@@ -491,8 +505,15 @@ class Fn:
             return self.lit(node.value)
         if isinstance(node, ast.Name):
             return self.var(node.id)
+        binds = {}
+        if self.selfcall is not None and match_pattern(self.selfcall, node, binds):
+            return self.self_call_expr([binds[k] for k in sorted(binds)])
         if isinstance(node, ast.BoolOp):
             vals = [self.ce(v) for v in node.values]
+            if (isinstance(node.op, ast.Or) and len(vals) == 2 and vals[0].ty == vals[1].ty and vals[0].ty.startswith("Option ")
+                    and vals[0].ty not in self.p.get("truthy", {}) and vals[0].pure and vals[1].pure):
+                # two optional objects without `__bool__` / `__len__`: the first unless it is None
+                return E(f"(({vals[0].term}).or {paren(vals[1].term)})", vals[0].ty)
             if isinstance(node.op, ast.Or) and len(vals) == 2 and vals[0].ty in (f"Option {vals[1].ty}", f"Option {paren(vals[1].ty)}") and vals[1].pure:
                 # `o or default` for an optional object without `__bool__` / `__len__`: the object, or the default for None
                 return self.bind1(vals[0], lambda x: f"(({x}).getD {paren(vals[1].term)})", vals[1].ty)
@@ -951,6 +972,11 @@ class Fn:
                 return ".ok σ"
             e = self.ce(s.value)
             return self.set_field("ret", e, "Except.ok")
+        if isinstance(s, ast.If) and isinstance(s.test, ast.NamedExpr) and isinstance(s.test.target, ast.Name):
+            # `if x := e:` is `x = e; if x:`
+            tgt = s.test.target.id
+            return self.cs([ast.Assign(targets=[ast.Name(id=tgt, ctx=ast.Store())], value=s.test.value),
+                            ast.If(test=ast.Name(id=tgt, ctx=ast.Load()), body=s.body, orelse=s.orelse)] + list(rest), k, loopk, brk)
         if isinstance(s, ast.If):
             c = self.truthy(self.ce(s.test))
 
@@ -1072,15 +1098,16 @@ class Fn:
             ety = elem_type(it.ty)
             self.nloop += 1
             ln = f"{self.name}.loop{self.nloop}"
+            xv = "x" if "x" not in self.ptypes else "x'"         # the current element (a parameter may be called x)
             if isinstance(s.target, ast.Name):
-                tgt_assign = f"let σ := {{ σ with {s.target.id} := x }}"
+                tgt_assign = f"let σ := {{ σ with {s.target.id} := {xv} }}"
                 if self.locals.get(s.target.id) is None:
                     raise Untranslatable(f"loop variable '{s.target.id}' undeclared")
                 if self.locals[s.target.id].startswith("Option "):
-                    tgt_assign = f"let σ := {{ σ with {s.target.id} := some x }}"
+                    tgt_assign = f"let σ := {{ σ with {s.target.id} := some {xv} }}"
             elif isinstance(s.target, ast.Tuple) and len(s.target.elts) == 2 and all(isinstance(e, ast.Name) for e in s.target.elts):
                 a, b = (e.id for e in s.target.elts)
-                tgt_assign = f"let σ := {{ σ with {a} := x.1, {b} := x.2 }}"
+                tgt_assign = f"let σ := {{ σ with {a} := {xv}.1, {b} := {xv}.2 }}"
             else:
                 raise Untranslatable("loop target")
             tnames = [s.target.id] if isinstance(s.target, ast.Name) else [e.id for e in s.target.elts]
@@ -1089,7 +1116,7 @@ class Fn:
                 wb = f"{{ σ with {arr} := σ.{arr} ++ [σ.{s.target.id}] }}"
             kloop = f"{ln} rest" if wb is None else f"(fun σ => {ln} rest {wb})"
             body = self.cs(s.body, kloop, kloop, "Except.ok")
-            self.aux.append(f"def {ln} : List {paren(ety)} → {self.name}.S → Py.M {self.name}.S\n  | [], σ => .ok σ\n  | x :: rest, σ =>\n{ind(tgt_assign, 4)}\n{ind(body, 4)}")
+            self.aux.append(f"def {ln} : List {paren(ety)} → {self.name}.S → Py.M {self.name}.S\n  | [], σ => .ok σ\n  | {xv} :: rest, σ =>\n{ind(tgt_assign, 4)}\n{ind(body, 4)}")
             if arr is not None:
                 return f"{ln} σ.{arr} {{ σ with {arr} := [] }} >>= fun σ =>\n{after()}"
             if it.pure:
@@ -1137,10 +1164,16 @@ class Fn:
         lists it mutates in place"""
         if not self.ret_ty or self.locals.get(target) != self.ret_ty:
             raise Untranslatable(f"recursive call: '{target}' must have the return type {self.ret_ty}")
-        if len(argnodes) != len(self.params):
+        fixed = self.p.get("rec_fixed", [])
+        if len(argnodes) != len(self.params) - len(fixed):
             raise Untranslatable("recursive call: one hole per parameter expected")
         args, wb = [], []
-        for (pn, pt), node in zip(self.params, argnodes):
+        argnodes = iter(argnodes)
+        for pn, pt in self.params:
+            if pn in fixed:
+                args.append(pn)
+                continue
+            node = next(argnodes)
             a = self.ce(node)
             if not a.pure or a.ty != pt:
                 raise Untranslatable(f"recursive call: argument for '{pn}' has type {a.ty} (expected a pure {pt})")
@@ -1153,6 +1186,35 @@ class Fn:
         wb.append(f"{target} := v")
         return (f"{self.name}.rec fuel {' '.join(args)} {{}} >>= fun r =>\nPy.deref r.ret >>= fun v =>\n"
                 f"let σ := {{ σ with {', '.join(wb)} }}\n{after()}")
+
+    def self_call_expr(self, argnodes):
+        """a recursive call in expression position: the value the function returns for these arguments"""
+        fixed = self.p.get("rec_fixed", [])
+        if not self.ret_ty or self.p.get("inout"):
+            raise Untranslatable("recursive call inside an expression: needs `ret` and no `inout` parameters")
+        if len(argnodes) != len(self.params) - len(fixed):
+            raise Untranslatable("recursive call: one hole per parameter expected")
+        argnodes = iter(argnodes)
+        names, binds = [], []
+        for i, (pn, pt) in enumerate(self.params):
+            if pn in fixed:
+                names.append(pn)
+                continue
+            a = self.ce(next(argnodes))
+            if a.ty in (f"Option {pt}", f"Option {paren(pt)}"):
+                a = self.bind1(a, lambda x: f"(Py.deref {x})", pt, partial=True)
+            if a.ty != pt:
+                raise Untranslatable(f"recursive call: argument for '{pn}' has type {a.ty} (expected {pt})")
+            if a.pure:
+                names.append(paren(a.term))
+            else:
+                names.append(f"c{i}")
+                binds.append((f"c{i}", a))
+        self.recursive = True
+        body = f"({self.name}.rec fuel {' '.join(names)} {{}} >>= fun r => Py.deref r.ret)"
+        for nm, a in reversed(binds):
+            body = f"({a.term} >>= fun {nm} => {body})"
+        return E(body, self.ret_ty, False)
 
     def _let(self, name, e):
         """`let σ := { σ with name := e }` for a pure e, with the coercions of an assignment"""
@@ -1215,6 +1277,25 @@ class Fn:
         body = self.cs(stmts, "Except.ok")
         for loc, par in self.p.get("init", {}).items():
             body = f"let σ := {{ σ with {loc} := {par} }}\n{body}"
+        self._body = body
+        if self.p.get("type_params"):
+            return self.with_type_params(self.translate_mono())
+        return self.translate_mono()
+
+    def with_type_params(self, text):
+        """generic in the types `type_params`: the record takes them explicitly, every definition implicitly"""
+        tps = self.p["type_params"]
+        S = f"{self.name}.S"
+        expl = " ".join(f"({t} : Type) [Inhabited {t}]" for t in tps)
+        impl = " ".join(f"{{{t} : Type}} [Inhabited {t}]" for t in tps)
+        text = re.sub(r"(?<![\w.])" + re.escape(S) + r"(?![\w.])", f"({S} {' '.join(tps)})", text)
+        text = text.replace(f"structure ({S} {' '.join(tps)}) where", f"structure {S} {expl} where")
+        text = text.replace(f"instance {self.name}.instInhabitedS :", f"instance {self.name}.instInhabitedS {impl} :")
+        return re.sub(r"^def (\S+) ", lambda m: f"def {m.group(1)} {impl} ", text, flags=re.M)
+
+    def translate_mono(self):
+        stmts = self.fdef.body
+        body = self._body
         fields = "\n".join(f"  {n} : {t.replace('Stack ', 'List ')} := default" for n, t in self.locals.items())
         params = " ".join(f"({n} : {t})" for n, t in self.params)
         pnames = " ".join(n for n, _ in self.params)
